@@ -29,7 +29,7 @@ impl<'a> Session<'a> {
     pub fn new(out: &'a mut Out, v: &'static dyn Var) -> Session<'a> {
         Session { out, v, gens: (0..4).map(|_| None).collect(), bytes_fed: 0 }
     }
-    fn g(&self, i: usize) -> &dyn GenObj {
+    pub fn g(&self, i: usize) -> &dyn GenObj {
         self.gens[i].as_deref().expect("live generator")
     }
     pub fn new_gen(&mut self, i: usize) {
